@@ -1,6 +1,6 @@
 CONSTANTS
   Threads = {1, 2}
-  Layouts <- LayoutsLive
+  Layouts <- LayoutsTwoA
   Muts <- MutsNone
   Sigs = {"a", "b"}
   BadSigs = {"k"}
